@@ -107,12 +107,21 @@ func init() {
 			p := genPathExpr(r, 4, 8)
 			if r.Intn(2) == 0 {
 				k = "new"
-				p = pick(r, []string{"a", "b", "../a", "..", ".", "a/b", "../c", "../a-evil", "/a", "c", "a/../a/b", "f.yaml", ""})
+				p = pick(r, []string{"a", "b", "../a", "..", ".", "a/b", "../c", "../a-evil", "/a", "c", "a/../a/b", "f.yaml", "",
+					"a/b", "../../c", "../a", "../../a", "../a/b", "../c"})
 			} else if r.Intn(2) == 0 {
 				p = pick(r, []string{"f.yaml", "b/f.yaml", "../f.yaml", "../a-evil/f.yaml", "/a/f.yaml", "./b/../f.yaml", "../../f.yaml", "c/f.yaml", "b"})
 			}
 			opl = append(opl, op{k, p})
 			ops = append(ops, []interface{}{k, p})
+		}
+		if r.Intn(6) == 0 {
+			// down, sideways, and back above the FIRST root (not the current one)
+			opl = []op{{"new", "a/b"}, {"new", "../../c"}, {"new", pick(r, []string{"../a", "../a/b", "../a-evil", "../a/b/c"})}, {"load", "f.yaml"}}
+			ops = []interface{}{}
+			for _, o := range opl {
+				ops = append(ops, []interface{}{o.k, o.p})
+			}
 		}
 		args := map[string]interface{}{"fs": fsw, "ops": ops}
 		return args, func() (interface{}, string) {
